@@ -578,3 +578,78 @@ m('gsp_degree_guard_weakened', 'harmful', 'C03', K,
   'polynomial of lower degree accepted')
 m('gsp_secret_appended', 'harmful', 'C06', K,
   '    coefficients.insert(0, secret.scalar);', '    coefficients.push(secret.scalar);', 'the secret becomes the LEADING coefficient')
+
+
+# ---------------------------------------------------------------------------------------------------------------------
+# the remaining one-line codec wrappers (C12): per wrapper one benign (another error value) and two harmful (another value; garbage accepted /
+# identity encoded).  `old` = (text, n, total): the n-th of `total` occurrences of the text in the file.
+SC = '        Ok(Self(SerializableScalar::deserialize(bytes)?))'
+EL = '        Ok(Self(SerializableElement::deserialize(bytes)?))'
+for (nm, f, n, tot) in (('nonce', R1, 0, 1), ('delta', RP, 0, 2), ('sigma', RP, 1, 2)):
+    m('cw_%s_other_error_value' % nm, 'benign', 'C12', f, (SC, n, tot),
+      '        match SerializableScalar::<C>::deserialize(bytes) {\n            Ok(s) => Ok(Self(s)),\n            Err(_) => Err(Error::MalformedSigningKey),\n        }',
+      'every undecodable string reported as MalformedSigningKey')
+    m('cw_%s_other_value' % nm, 'harmful', 'C12', f, (SC, n, tot),
+      '        Ok(Self(SerializableScalar(SerializableScalar::<C>::deserialize(bytes)?.0 + <<C::Group as Group>::Field>::one())))', 'decoded value is off by one')
+    m('cw_%s_garbage_accepted' % nm, 'harmful', 'C12', f, (SC, n, tot),
+      '        match SerializableScalar::<C>::deserialize(bytes) {\n            Ok(s) => Ok(Self(s)),\n            Err(_) => Ok(Self(SerializableScalar(<<C::Group as Group>::Field>::one()))),\n        }',
+      'undecodable strings decode to 1')
+SS = '            share: SerializableScalar::deserialize(bytes)?,'
+m('cw_sigshare_other_error_value', 'benign', 'C12', R2, SS,
+  '            share: match SerializableScalar::<C>::deserialize(bytes) {\n                Ok(s) => s,\n                Err(_) => return Err(Error::MalformedSignature),\n            },',
+  'every undecodable string reported as MalformedSignature')
+m('cw_sigshare_other_value', 'harmful', 'C12', R2, SS,
+  '            share: SerializableScalar(SerializableScalar::<C>::deserialize(bytes)?.0 + <<C::Group as Group>::Field>::one()),', 'decoded share is off by one')
+m('cw_sigshare_garbage_accepted', 'harmful', 'C12', R2, SS,
+  '            share: match SerializableScalar::<C>::deserialize(bytes) {\n                Ok(s) => s,\n                Err(_) => SerializableScalar(<<C::Group as Group>::Field>::one()),\n            },',
+  'undecodable strings decode to 1')
+for (nm, f, n, tot) in (('vshare', K, 0, 2), ('coeffcomm', K, 1, 2), ('noncecomm', R1, 0, 1)):
+    m('cw_%s_other_error_value' % nm, 'benign', 'C12', f, (EL, n, tot),
+      '        match SerializableElement::<C>::deserialize(bytes) {\n            Ok(e) => Ok(Self(e)),\n            Err(_) => Err(Error::MalformedVerifyingKey),\n        }',
+      'every undecodable string reported as MalformedVerifyingKey')
+    m('cw_%s_other_value' % nm, 'harmful', 'C12', f, (EL, n, tot),
+      '        Ok(Self(SerializableElement(SerializableElement::<C>::deserialize(bytes)?.0 + <C::Group>::generator())))', 'decoded element shifted by G')
+    m('cw_%s_garbage_accepted' % nm, 'harmful', 'C12', f, (EL, n, tot),
+      '        match SerializableElement::<C>::deserialize(bytes) {\n            Ok(e) => Ok(Self(e)),\n            Err(_) => Ok(Self(SerializableElement(<C::Group>::generator()))),\n        }',
+      'undecodable strings decode to G')
+# identity-refusing encoders
+ES = '        self.0.serialize()\n'
+for (nm, f, n, tot) in (('vshare', K, 1, 3), ('coeffcomm', K, 2, 3), ('noncecomm', R1, 1, 2)):
+    m('cw_%s_ser_other_error_value' % nm, 'benign', 'C12', f, (ES, n, tot),
+      '        match self.0.serialize() {\n            Ok(v) => Ok(v),\n            Err(_) => Err(Error::MalformedVerifyingKey),\n        }\n', 'identity refused with another error value')
+    m('cw_%s_ser_other_value' % nm, 'harmful', 'C12', f, (ES, n, tot),
+      '        SerializableElement::<C>(self.0.0 + self.0.0).serialize()\n', 'twice the element is encoded')
+    m('cw_%s_ser_identity_encoded' % nm, 'harmful', 'C12', f, (ES, n, tot),
+      '        match self.0.serialize() {\n            Ok(v) => Ok(v),\n            Err(_) => Ok(Vec::new()),\n        }\n', 'the identity is encoded as the empty string')
+m('cw_vk_ser_other_error_value', 'benign', 'C12', VK, '        self.element.serialize()\n',
+  '        match self.element.serialize() {\n            Ok(v) => Ok(v),\n            Err(_) => Err(Error::MalformedVerifyingKey),\n        }\n', 'identity refused with another error value')
+m('cw_vk_ser_other_value', 'harmful', 'C12', VK, '        self.element.serialize()\n',
+  '        SerializableElement::<C>(self.element.0 + self.element.0).serialize()\n', 'twice the element is encoded')
+m('cw_vk_ser_identity_encoded', 'harmful', 'C12', VK, '        self.element.serialize()\n',
+  '        match self.element.serialize() {\n            Ok(v) => Ok(v),\n            Err(_) => Ok(Vec::new()),\n        }\n', 'the identity is encoded as the empty string')
+# Signature::serialize / deserialize (hook calls) and the default hook bodies
+m('cw_sig_ser_other_error_value', 'benign', 'C12', SIG, '        <C>::serialize_signature(self)\n',
+  '        match <C>::serialize_signature(self) {\n            Ok(v) => Ok(v),\n            Err(_) => Err(Error::MalformedSignature),\n        }\n', 'identity R refused with another error value')
+m('cw_sig_ser_other_value', 'harmful', 'C12', SIG, '        <C>::serialize_signature(self)\n',
+  '        <C>::serialize_signature(&Signature { R: self.R, z: self.z + self.z })\n', 'another response is encoded')
+m('cw_sig_ser_identity_encoded', 'harmful', 'C12', SIG, '        <C>::serialize_signature(self)\n',
+  '        match <C>::serialize_signature(self) {\n            Ok(v) => Ok(v),\n            Err(_) => Ok(Vec::new()),\n        }\n', 'identity R encoded as the empty string')
+m('cw_sig_deser_other_error_value', 'benign', 'C12', SIG, '        C::deserialize_signature(bytes)\n',
+  '        match C::deserialize_signature(bytes) {\n            Ok(s) => Ok(s),\n            Err(_) => Err(Error::InvalidSignature),\n        }\n', 'every undecodable string reported as InvalidSignature')
+m('cw_sig_deser_other_value', 'harmful', 'C12', SIG, '        C::deserialize_signature(bytes)\n',
+  '        match C::deserialize_signature(bytes) {\n            Ok(s) => Ok(Signature { R: s.R, z: s.z + s.z }),\n            Err(e) => Err(e),\n        }\n', 'decoded response doubled')
+m('cw_sig_deser_garbage_accepted', 'harmful', 'C12', SIG, '        C::deserialize_signature(bytes)\n',
+  '        match C::deserialize_signature(bytes) {\n            Ok(s) => Ok(s),\n            Err(_) => Ok(Signature { R: <C::Group>::generator(), z: <<C::Group as Group>::Field>::zero() }),\n        }\n', 'undecodable strings decode to (G, 0)')
+T = 'frost-core/src/traits.rs'
+m('cw_hook_ser_other_error_value', 'benign', 'C12', T, '        signature.default_serialize()\n',
+  '        match signature.default_serialize() {\n            Ok(v) => Ok(v),\n            Err(_) => Err(Error::MalformedSignature),\n        }\n', 'default hook: identity R refused with another error value')
+m('cw_hook_ser_identity_encoded', 'harmful', 'C12', T, '        signature.default_serialize()\n',
+  '        match signature.default_serialize() {\n            Ok(v) => Ok(v),\n            Err(_) => Ok(Vec::new()),\n        }\n', 'default hook: identity R encoded as the empty string')
+m('cw_hook_ser_other_value', 'harmful', 'C12', T, '        signature.default_serialize()\n',
+  '        Signature::<Self> { R: signature.R, z: signature.z + signature.z }.default_serialize()\n', 'default hook: another response is encoded')
+m('cw_hook_deser_other_error_value', 'benign', 'C12', T, '        Signature::<Self>::default_deserialize(bytes)\n',
+  '        match Signature::<Self>::default_deserialize(bytes) {\n            Ok(s) => Ok(s),\n            Err(_) => Err(Error::InvalidSignature),\n        }\n', 'default hook: every undecodable string reported as InvalidSignature')
+m('cw_hook_deser_garbage_accepted', 'harmful', 'C12', T, '        Signature::<Self>::default_deserialize(bytes)\n',
+  '        match Signature::<Self>::default_deserialize(bytes) {\n            Ok(s) => Ok(s),\n            Err(_) => Ok(Signature { R: <Self::Group>::generator(), z: <<Self::Group as Group>::Field>::zero() }),\n        }\n', 'default hook: undecodable strings decode to (G, 0)')
+m('cw_hook_deser_other_value', 'harmful', 'C12', T, '        Signature::<Self>::default_deserialize(bytes)\n',
+  '        match Signature::<Self>::default_deserialize(bytes) {\n            Ok(s) => Ok(Signature { R: s.R, z: s.z + s.z }),\n            Err(e) => Err(e),\n        }\n', 'default hook: decoded response doubled')
